@@ -104,6 +104,8 @@ def corrupt(e, i):
 def binding_selftest(run, tmp, shards, module, name, already):
     """Demonstrate the binding: corrupt recorded fields of good events and
     require TLC to reject exactly those events (controls stay accepted)."""
+    if run.violations:   # the tree is already condemned by real events: the verdict must not be masked by exit 2
+        return
     evs = []
     for path in shards:
         for line in open(path):
@@ -597,8 +599,8 @@ def plan_pool(run, tmp):
     summary = V.json.load(open(V.os.path.join(out, "summary.json")))
     summary["vectors_from_tlc"] = nvec
     run.add_validation("poolseq", v, summary)
-    binding_selftest(run, tmp, shards, "TracePoolSeq", "poolseq", set(x[0] for x in v["rejs"]))
     V.judge(run, known, v["rejs"], shards, dict(hx=["poolseq", "-vectors", "(regenerate with GenPool)"], seed=run.seed, tier=run.tier, module="TracePoolSeq"))
+    binding_selftest(run, tmp, shards, "TracePoolSeq", "poolseq", set(x[0] for x in v["rejs"]))
     # objects handed out are usable: a round trip with each (validated by TraceCodec)
     ushards = V.shard_files(out, "use")
     vu = V.validate_shards(tmp, "TraceCodec", ushards, "pooluse")
